@@ -241,6 +241,117 @@ impl Ctx {
             self.report("certbit", "cert", false, acc, same, vec!["cert-bit".into(), hx(&bytes), bit.to_string()], &format!("{cls}-{}", if acc { "accepted" } else { "rejected" }));
         }
     }
+    /// certificate-forming signatures, each through every entry point that verifies its kind:
+    /// every bit of the signature packet, another signee, another signer
+    fn keysigs(&mut self, ver: KeyVersion, kt: KeyType, seed: u64, cls: &str) {
+        use pgp::composed::{SecretKeyParamsBuilder, SubkeyParamsBuilder};
+        use pgp::packet::{Packet, PacketParser, Signature, SignatureConfig, SignatureType, Subpacket, SubpacketData, UserId};
+        use pgp::types::{Tag, Timestamp};
+        let gen = |seed: u64, uid: &str| guarded(|| -> Option<SignedSecretKey> {
+            let mut sb = SubkeyParamsBuilder::default(); sb.version(ver).key_type(kt.clone()).can_sign(true);
+            let mut p = SecretKeyParamsBuilder::default();
+            p.version(ver).key_type(kt.clone()).can_certify(true).can_sign(true).primary_user_id(uid.into()).subkeys(vec![sb.build().ok()?]);
+            p.build().ok()?.generate(Rng::new(seed)).ok()
+        }).ok().flatten();
+        let (Some(a), Some(o)) = (gen(seed, "a <a@example.org>"), gen(seed + 1, "o <o@example.org>")) else { self.out.case("", &[], &["keysigs-gen".into()], "ERR gen", Some(false), cls); return; };
+        let pw = Password::empty();
+        let (ap, op) = (a.primary_key.public_key(), o.primary_key.public_key());
+        let (asub, osub) = (&a.secret_subkeys[0].key, &o.secret_subkeys[0].key);
+        let (asp, osp) = (asub.public_key(), osub.public_key());
+        let uid = UserId::from_str(Default::default(), "a <a@example.org>").unwrap();
+        let uid2 = UserId::from_str(Default::default(), "a <a@example.org> ").unwrap();
+        let cfg = |k: &dyn Fn(Rng) -> pgp::errors::Result<SignatureConfig>, fp: pgp::types::Fingerprint| -> Option<SignatureConfig> {
+            let mut c = k(Rng::new(77)).ok()?;
+            c.hashed_subpackets = vec![Subpacket::regular(SubpacketData::SignatureCreationTime(Timestamp::from_secs(1_700_000_000))).ok()?, Subpacket::regular(SubpacketData::IssuerFingerprint(fp)).ok()?];
+            Some(c)
+        };
+        let mpi_alg = !matches!(a.primary_key.algorithm(), pgp::crypto::public_key::PublicKeyAlgorithm::Ed25519 | pgp::crypto::public_key::PublicKeyAlgorithm::Ed448);
+        // (kind, signature, verifier over the honest objects, verifiers that must all reject the honest signature)
+        type V<'x> = Box<dyn Fn(&Signature) -> bool + 'x>;
+        let mut kinds: Vec<(String, Signature, Vec<(&str, V)>, Vec<(&str, V)>)> = Vec::new();
+        for (tn, typ) in [("direct-key", SignatureType::Key), ("key-revocation", SignatureType::KeyRevocation)] {
+            if let Some(sig) = cfg(&|r| SignatureConfig::from_key(r, &a.primary_key, typ), a.primary_key.fingerprint()).and_then(|c| c.sign_key(&a.primary_key, &pw, &ap).ok()) {
+                kinds.push((tn.into(), sig, vec![("verify_key", Box::new(|s: &Signature| s.verify_key(&ap).is_ok()) as V), ("verify_key_third_party", Box::new(|s: &Signature| s.verify_key_third_party(&ap, &ap).is_ok()))],
+                    vec![("other-signee", Box::new(|s: &Signature| s.verify_key_third_party(&op, &ap).is_ok()) as V), ("other-signer", Box::new(|s: &Signature| s.verify_key_third_party(&ap, &op).is_ok())), ("other-key", Box::new(|s: &Signature| s.verify_key(&op).is_ok())), ("as-subkey-binding", Box::new(|s: &Signature| s.verify_subkey_binding(&ap, &asp).is_ok())), ("as-certification", Box::new(|s: &Signature| s.verify_certification(&ap, Tag::UserId, &uid).is_ok()))]));
+            }
+            // third party: o signs over a
+            if let Some(sig) = cfg(&|r| SignatureConfig::from_key(r, &o.primary_key, typ), o.primary_key.fingerprint()).and_then(|c| c.sign_key(&o.primary_key, &pw, &ap).ok()) {
+                kinds.push((format!("{tn}-third-party"), sig, vec![("verify_key_third_party", Box::new(|s: &Signature| s.verify_key_third_party(&ap, &op).is_ok()) as V)],
+                    vec![("self", Box::new(|s: &Signature| s.verify_key(&ap).is_ok()) as V), ("swapped", Box::new(|s: &Signature| s.verify_key_third_party(&op, &ap).is_ok())), ("signer-as-signee", Box::new(|s: &Signature| s.verify_key(&op).is_ok()))]));
+            }
+        }
+        for (tn, typ) in [("cert-generic", SignatureType::CertGeneric), ("cert-persona", SignatureType::CertPersona), ("cert-casual", SignatureType::CertCasual), ("cert-positive", SignatureType::CertPositive), ("cert-revocation", SignatureType::CertRevocation)] {
+            if let Some(sig) = cfg(&|r| SignatureConfig::from_key(r, &a.primary_key, typ), a.primary_key.fingerprint()).and_then(|c| c.sign_certification(&a.primary_key, &ap, &pw, Tag::UserId, &uid).ok()) {
+                kinds.push((tn.into(), sig, vec![("verify_certification", Box::new(|s: &Signature| s.verify_certification(&ap, Tag::UserId, &uid).is_ok()) as V), ("verify_third_party_certification", Box::new(|s: &Signature| s.verify_third_party_certification(&ap, &ap, Tag::UserId, &uid).is_ok()))],
+                    vec![("other-uid", Box::new(|s: &Signature| s.verify_certification(&ap, Tag::UserId, &uid2).is_ok()) as V), ("other-key", Box::new(|s: &Signature| s.verify_certification(&op, Tag::UserId, &uid).is_ok())), ("other-signee", Box::new(|s: &Signature| s.verify_third_party_certification(&op, &ap, Tag::UserId, &uid).is_ok())), ("other-signer", Box::new(|s: &Signature| s.verify_third_party_certification(&ap, &op, Tag::UserId, &uid).is_ok())), ("as-key", Box::new(|s: &Signature| s.verify_key(&ap).is_ok()))]));
+            }
+            if let Some(sig) = cfg(&|r| SignatureConfig::from_key(r, &o.primary_key, typ), o.primary_key.fingerprint()).and_then(|c| c.sign_certification_third_party(&o.primary_key, &pw, &ap, Tag::UserId, &uid).ok()) {
+                kinds.push((format!("{tn}-third-party"), sig, vec![("verify_third_party_certification", Box::new(|s: &Signature| s.verify_third_party_certification(&ap, &op, Tag::UserId, &uid).is_ok()) as V)],
+                    vec![("self", Box::new(|s: &Signature| s.verify_certification(&ap, Tag::UserId, &uid).is_ok()) as V), ("swapped", Box::new(|s: &Signature| s.verify_third_party_certification(&op, &ap, Tag::UserId, &uid).is_ok())), ("other-uid", Box::new(|s: &Signature| s.verify_third_party_certification(&ap, &op, Tag::UserId, &uid2).is_ok()))]));
+            }
+        }
+        for (tn, typ) in [("subkey-binding", SignatureType::SubkeyBinding), ("subkey-revocation", SignatureType::SubkeyRevocation)] {
+            if let Some(sig) = cfg(&|r| SignatureConfig::from_key(r, &a.primary_key, typ), a.primary_key.fingerprint()).and_then(|c| c.sign_subkey_binding(&a.primary_key, &ap, &pw, &asp).ok()) {
+                kinds.push((tn.into(), sig, vec![("verify_subkey_binding", Box::new(|s: &Signature| s.verify_subkey_binding(&ap, &asp).is_ok()) as V)],
+                    vec![("other-subkey", Box::new(|s: &Signature| s.verify_subkey_binding(&ap, &osp).is_ok()) as V), ("other-primary", Box::new(|s: &Signature| s.verify_subkey_binding(&op, &asp).is_ok())), ("as-primary-binding", Box::new(|s: &Signature| s.verify_primary_key_binding(&asp, &ap).is_ok())), ("as-key", Box::new(|s: &Signature| s.verify_key(&ap).is_ok()))]));
+            }
+        }
+        if let Some(sig) = cfg(&|r| SignatureConfig::from_key(r, asub, SignatureType::KeyBinding), asub.fingerprint()).and_then(|c| c.sign_primary_key_binding(asub, &asp, &pw, &ap).ok()) {
+            kinds.push(("primary-key-binding".into(), sig, vec![("verify_primary_key_binding", Box::new(|s: &Signature| s.verify_primary_key_binding(&asp, &ap).is_ok()) as V)],
+                vec![("other-primary", Box::new(|s: &Signature| s.verify_primary_key_binding(&asp, &op).is_ok()) as V), ("other-subkey", Box::new(|s: &Signature| s.verify_primary_key_binding(&osp, &ap).is_ok())), ("as-subkey-binding", Box::new(|s: &Signature| s.verify_subkey_binding(&ap, &asp).is_ok()))]));
+        }
+        let _ = osub;
+        for (kind, sig, accept, reject) in &kinds {
+            let Ok(bytes) = Packet::from(sig.clone()).to_bytes() else { continue; };
+            for (en, f) in accept {
+                let ok = guarded(|| f(sig)).unwrap_or(false);
+                self.out.case("", &[], &["keysig-baseline".into(), kind.clone(), en.to_string()], &format!("verify={}", ok as u8), Some(ok), &format!("{cls}-{kind}-baseline"));
+            }
+            for (en, f) in reject {
+                let acc = guarded(|| f(sig)).unwrap_or(false);
+                self.report("keysig-wrong-object", en, true, acc, true, vec!["keysig-wrong-object".into(), kind.clone(), en.to_string(), hx(&bytes)], &format!("{cls}-{kind}-wrong-object"));
+            }
+            let Some(l) = layout(&bytes) else { continue; };
+            let cfg0 = sig.config().cloned();
+            for b in 0..bytes.len() * 8 {
+                let (field, must) = field_of(&l, b / 8, mpi_alg, &bytes);
+                if field == "unhashed" || field == "unhashed-len" { if b % 3 != 0 { continue; } }
+                let mut v = bytes.clone(); v[b / 8] ^= 1 << (b % 8);
+                let parsed = guarded(|| match PacketParser::new(&v[..]).next() { Some(Ok(Packet::Signature(s2))) => Some(s2), _ => None }).ok().flatten();
+                for (en, f) in accept {
+                    let (acc, bound) = match &parsed {
+                        Some(s2) => (guarded(|| f(s2)).unwrap_or(false), match (s2.config(), &cfg0) { (Some(c2), Some(c0)) => c2.typ == c0.typ && c2.pub_alg == c0.pub_alg && c2.hash_alg == c0.hash_alg && c2.hashed_subpackets == c0.hashed_subpackets && c2.version_specific == c0.version_specific, _ => false }),
+                        None => (false, true),
+                    };
+                    self.report("keysig-bit", field, must, acc, bound, vec!["keysig-bit".into(), kind.clone(), en.to_string(), hx(&bytes), b.to_string()], &format!("{cls}-{kind}-{field}"));
+                }
+            }
+        }
+        // the same signatures inside a certificate: verify_bindings over every bit of the direct-key and revocation signatures
+        let mut pk = SignedPublicKey::from(a.clone());
+        for (kind, sig, _, _) in &kinds {
+            if kind == "direct-key" { pk.details.direct_signatures.push(sig.clone()); }
+            if kind == "key-revocation" { pk.details.revocation_signatures.push(sig.clone()); }
+        }
+        let ok0 = guarded(|| pk.verify_bindings().is_ok()).unwrap_or(false);
+        self.out.case("", &[], &["keysig-cert-baseline".into()], &format!("verify={}", ok0 as u8), Some(ok0), &format!("{cls}-cert-baseline"));
+        for which in ["direct", "revocation"] {
+            let sig = if which == "direct" { pk.details.direct_signatures.last().cloned() } else { pk.details.revocation_signatures.last().cloned() };
+            let Some(sig) = sig else { continue; };
+            let Ok(bytes) = Packet::from(sig.clone()).to_bytes() else { continue; };
+            let Some(l) = layout(&bytes) else { continue; };
+            for b in 0..bytes.len() * 8 {
+                let (field, must) = field_of(&l, b / 8, mpi_alg, &bytes);
+                if !must || field == "header" { continue; }
+                let mut v = bytes.clone(); v[b / 8] ^= 1 << (b % 8);
+                let Some(s2) = guarded(|| match PacketParser::new(&v[..]).next() { Some(Ok(Packet::Signature(s2))) => Some(s2), _ => None }).ok().flatten() else { continue; };
+                let mut p2 = pk.clone();
+                if which == "direct" { *p2.details.direct_signatures.last_mut().unwrap() = s2; } else { *p2.details.revocation_signatures.last_mut().unwrap() = s2; }
+                let acc = guarded(|| p2.verify_bindings().is_ok()).unwrap_or(false);
+                self.report("keysig-cert-bit", field, true, acc, true, vec!["keysig-cert-bit".into(), which.into(), hx(&bytes), b.to_string()], &format!("{cls}-cert-{which}-{field}"));
+            }
+        }
+    }
 }
 
 fn sigs_hashed(p: &SignedPublicKey) -> Vec<Vec<u8>> {
@@ -280,5 +391,12 @@ fn main() {
     }
     cx.certificate(&gen_key_with_subkey(KeyVersion::V4, 210), "cert-v4");
     cx.certificate(&gen_key_with_subkey(KeyVersion::V6, 211), "cert-v6");
+    cx.keysigs(KeyVersion::V4, KeyType::Ed25519Legacy, 220, "keysig-v4-eddsa");
+    cx.keysigs(KeyVersion::V6, KeyType::Ed25519, 222, "keysig-v6-ed25519");
+    if thorough {
+        cx.keysigs(KeyVersion::V4, KeyType::ECDSA(ECCCurve::P256), 224, "keysig-v4-p256");
+        cx.keysigs(KeyVersion::V6, KeyType::Ed448, 226, "keysig-v6-ed448");
+        cx.keysigs(KeyVersion::V4, KeyType::Rsa(2048), 228, "keysig-v4-rsa");
+    }
     cx.out.finish();
 }
